@@ -10,7 +10,7 @@ from harness import zones as Z
 ID = "C19"
 BACKENDS = ("py", "rs")
 GEN_MODULES = ()
-MIN_THEOREMS = 10
+MIN_THEOREMS = 21
 US = D.US
 DAY = 86400 * US
 YMAX = Z.YMAX_QUICK
